@@ -58,7 +58,7 @@ def cases(tier, seed):
             picks.append((rng.choice(reqs), rng.choice(resps)))
         for (rq, rs) in picks[:k]:
             if isinstance(rq[1], dict) and isinstance(rs[1], dict):
-                out.append((version, action, rq[1], rs[1], rng.random() < 0.5))
+                out.append((version, action, rq[1], rs[1], rng.choice([False, True, "mixed"])))
     return out
 
 
@@ -83,7 +83,7 @@ def body_factory(tier, seed):
                 return r
             res = N.run_loopback(version, action, obj, behave)
             rep.count(json.dumps([version, action, req, resp, as_dc], default=repr, sort_keys=True))
-            rep.add("nested-as-" + ("dataclasses" if as_dc else "dicts"))
+            rep.add("nested-as-" + ("mixed" if as_dc == "mixed" else "dataclasses" if as_dc else "dicts"))
             replay = {"kind": "loopback", "version": version, "action": action, "request": req, "response": resp,
                       "nested_as_dataclasses": as_dc, "observation": {k: (v if k != "outcome" else v[:3]) for k, v in res.items() if k != "frames"}}
             tag = "%s:%s" % (version, action)
